@@ -3,7 +3,7 @@ import itertools
 import json
 
 ID = "C01"
-PROP_FILES = ["Properties/C01.v", "Properties/C01_scanner.v"]
+PROP_FILES = ["Properties/C01.v", "Properties/C01_scanner.v", "Properties/C01_text.v"]
 THEOREMS = ["C01_parse_sound", "C01_parse_iff", "C01_grammar_unambiguous", "C01_fuel_enough",
             "C01_grouping_transparent", "C01_example", "C01_refuted_without_eof_check"]
 ASSUMPTIONS = [
@@ -38,7 +38,9 @@ def _sentence(rng, depth, budget=40):
         if left[0] <= 0 or d <= 0:
             r = r * 0.7
         if r < 0.45:
-            return [rng.choice(["x", "z", "g", "f", "w_1", "np.x", "`a b`", "`x+1`"])]
+            return [rng.choice(["x", "z", "g", "f", "w_1", "np.x", "`a b`", "`x+1`",
+                                # names that only LOOK like Python literals, in another letter case or with a suffix
+                                "true", "false", "none", "TRUE", "NONE", "True_", "nan", "e1", "I", "C"])]
         if r < 0.55:
             return [rng.choice(["1", "0", "2", "3", "1.5", "0.25", ".5", "10"])]
         if r < 0.60:
@@ -129,7 +131,9 @@ FIXED = ["", " ", "1 = 2", "f(x + 1 = 2)", "f(k = 1)", "y[3]", "y[1.5]", "y[True
          "x <= z", "x >= z", "x < z", "x > z", "x | g", "(x | g)", "(1 | g)", "((x))", "{{x}}", "f()", "f(())",
          "f(x)(z)", "f(x)[a]", "x[a](z)", "'a' + x", "True + x", "None", "y ~ 0", "y ~ 1", "y ~ -1", "y ~ 0 + x",
          "y ~ x - 1", "y ~ x + 0", "y ~ x * z - x:z", "y ~ (x + z) ** 2", "y ~ (x + z) ** z", "y ~ x / z", "y ~ x / (z + w)",
-         "y ~ a:b:c", "y ~ a*b*c", "y ~ x =", "= x", "y ~ x = z", "y ~ f(x, k = z + 1)", "y ~ f(k = 1, x)"]
+         "y ~ a:b:c", "y ~ a*b*c", "y ~ x =", "= x", "y ~ x = z", "y ~ f(x, k = z + 1)", "y ~ f(k = 1, x)",
+         "y ~ x + true", "y ~ x + false", "y ~ x + none", "y ~ NONE", "y ~ FALSE + x", "true ~ x", "y ~ ((false))",
+         "y ~ `true`", "y ~ True + x", "y ~ False + x", "y ~ f(true)", "y ~ x[true]", "y ~ inf + nan"]
 
 
 SPLITTABLE = {"**": ["*", "*"], "==": ["=", "="], "!=": ["!", "="], "<=": ["<", "="], ">=": [">", "="], "//": ["/", "/"]}
